@@ -22,10 +22,12 @@ CONSTANTS Langs,       \* subset of {"c", "cpp"}
           BaseSet,     \* "families": documented families; "commons": families x every value of the family-independent options
           MaxMut,      \* single-side option changes per behaviour (1: all ordered pairs differing in exactly one option)
           MaxBoth,     \* both-side option changes per behaviour (identical pairs of the neighbours of the bases)
+          Star,        \* TRUE: a single-side change is made only to an unchanged base pair (the pairs form a star around each base)
           HashBits     \* 32 = CRC-32 as implemented; 1 = a one-bit hash (negative control: collisions must be found)
 
-VARIABLES lang, a, b, nmut, nboth, ea, eb, defs, asrt, out
-vars == <<lang, a, b, nmut, nboth, ea, eb, defs, asrt, out>>
+VARIABLES lang, a, b, nmut, nboth, ea, eb, defs, asrt, out,
+          tab      \* the rendering of every documented value (never changes; see OptionGuardP, `Tables`)
+vars == <<lang, a, b, nmut, nboth, ea, eb, defs, asrt, out, tab>>
 
 (* ---------------------------------------------------------------------------------------------------- *)
 CommonKeys(l) == KeySet(l) \ (IF l = "c" THEN {} ELSE FamilyKeys)
@@ -43,7 +45,7 @@ Bases(l) ==
     ELSE IF BaseSet = "families" THEN CppFamilies
     ELSE UNION {AllVectors("cpp", CommonKeys("cpp"), f) : f \in CppFamilies}
 
-R(x) == IF HashBits = 32 THEN DocRender[x] ELSE DocRenderWeak[x]       \* tables of OptionGuardP, evaluated once by TLC
+R(x) == tab[x]
 ASSUME HashBits \in {1, 32}
 
 None == <<>>
@@ -56,37 +58,38 @@ Init ==
     /\ b = a
     /\ nmut = 0 /\ nboth = 0
     /\ ea = None /\ eb = None /\ defs = None /\ asrt = None /\ out = None
+    /\ tab = IF HashBits = 32 THEN DocRender ELSE DocRenderWeak
 
 Choosing == ea = None /\ eb = None
 
 MutateBoth(k, x) ==
     /\ Choosing /\ nboth < MaxBoth /\ nmut = 0 /\ a[k] # x
     /\ a' = [a EXCEPT ![k] = x] /\ b' = a' /\ nboth' = nboth + 1
-    /\ UNCHANGED <<lang, nmut, ea, eb, defs, asrt, out>>
+    /\ UNCHANGED <<lang, nmut, ea, eb, defs, asrt, out, tab>>
 MutateTypes(k, x) ==
-    /\ Choosing /\ nmut < MaxMut /\ a[k] # x
+    /\ Choosing /\ nmut < MaxMut /\ (Star => nboth = 0) /\ a[k] # x
     /\ a' = [a EXCEPT ![k] = x] /\ nmut' = nmut + 1
-    /\ UNCHANGED <<lang, b, nboth, ea, eb, defs, asrt, out>>
+    /\ UNCHANGED <<lang, b, nboth, ea, eb, defs, asrt, out, tab>>
 MutateSupport(k, x) ==
-    /\ Choosing /\ nmut < MaxMut /\ b[k] # x
+    /\ Choosing /\ nmut < MaxMut /\ (Star => nboth = 0) /\ b[k] # x
     /\ b' = [b EXCEPT ![k] = x] /\ nmut' = nmut + 1
-    /\ UNCHANGED <<lang, a, nboth, ea, eb, defs, asrt, out>>
+    /\ UNCHANGED <<lang, a, nboth, ea, eb, defs, asrt, out, tab>>
 
 Validated(v) ==      \* _validate_language_options: update with the short-hand group, then the allocator check
     LET e == IF IsShorthand(lang, v) THEN Over(v, Group(v["std"].v)) ELSE v
         bad == lang = "cpp" /\ e["ctor_convention"] # S(T_default) /\ e["allocator_type"] = S(T_empty)
     IN [ok |-> ~bad, o |-> e]
-ValidateTypes   == ea = None /\ ea' = Some(Validated(a)) /\ UNCHANGED <<lang, a, b, nmut, nboth, eb, defs, asrt, out>>
-ValidateSupport == eb = None /\ eb' = Some(Validated(b)) /\ UNCHANGED <<lang, a, b, nmut, nboth, ea, defs, asrt, out>>
+ValidateTypes   == ea = None /\ ea' = Some(Validated(a)) /\ UNCHANGED <<lang, a, b, nmut, nboth, eb, defs, asrt, out, tab>>
+ValidateSupport == eb = None /\ eb' = Some(Validated(b)) /\ UNCHANGED <<lang, a, b, nmut, nboth, ea, defs, asrt, out, tab>>
 
 GenSupport ==
     /\ IsSet(eb) /\ eb[1].ok /\ defs = None
     /\ defs' = Some([k \in DOMAIN eb[1].o |-> R(eb[1].o[k])])
-    /\ UNCHANGED <<lang, a, b, nmut, nboth, ea, eb, asrt, out>>
+    /\ UNCHANGED <<lang, a, b, nmut, nboth, ea, eb, asrt, out, tab>>
 GenTypes ==
     /\ IsSet(ea) /\ ea[1].ok /\ asrt = None
     /\ asrt' = Some([k \in DOMAIN ea[1].o |-> R(ea[1].o[k])])
-    /\ UNCHANGED <<lang, a, b, nmut, nboth, ea, eb, defs, out>>
+    /\ UNCHANGED <<lang, a, b, nmut, nboth, ea, eb, defs, out, tab>>
 
 Headers == {1, 2}        \* every type header carries the same block of assertions
 Compile ==
@@ -94,11 +97,11 @@ Compile ==
     /\ LET fired == {k \in DOMAIN asrt[1] : asrt[1][k] # defs[1][k]}
        IN out' = Some([rc |-> IF fired = {} THEN 0 ELSE 1, msg |-> fired # {}, fired |-> fired,
                        headers |-> Headers, fired_headers |-> IF fired = {} THEN {} ELSE Headers])
-    /\ UNCHANGED <<lang, a, b, nmut, nboth, ea, eb, defs, asrt>>
+    /\ UNCHANGED <<lang, a, b, nmut, nboth, ea, eb, defs, asrt, tab>>
 Refuse ==        \* the generator raised: nothing to compile together
     /\ out = None /\ ((IsSet(ea) /\ ~ea[1].ok) \/ (IsSet(eb) /\ ~eb[1].ok))
     /\ out' = Some([rc |-> 2, msg |-> FALSE, fired |-> {}, headers |-> {}, fired_headers |-> {}])
-    /\ UNCHANGED <<lang, a, b, nmut, nboth, ea, eb, defs, asrt>>
+    /\ UNCHANGED <<lang, a, b, nmut, nboth, ea, eb, defs, asrt, tab>>
 
 Next ==
     \/ \E k \in KeySet(lang) : \E x \in DocVals(lang, k) : MutateBoth(k, x) \/ MutateTypes(k, x) \/ MutateSupport(k, x)
@@ -134,6 +137,6 @@ Emit ==
 EmitDoc == PrintT(ToJson([doc |-> [c |-> DocC, cpp |-> DocCpp], keys |-> [c |-> Keys("c"), cpp |-> Keys("cpp")],
                           groups |-> [pmr |-> [name |-> T_cpp17pmr, o |-> GroupPmr], cetl |-> [name |-> T_cetl1417, o |-> GroupCetl]]]))
 DocInit == /\ lang = "c" /\ a = Default("c") /\ b = a /\ nmut = 0 /\ nboth = 0
-           /\ ea = None /\ eb = None /\ defs = None /\ asrt = None /\ out = None
+           /\ ea = None /\ eb = None /\ defs = None /\ asrt = None /\ out = None /\ tab = <<>>
 DocSpec == DocInit /\ [][FALSE]_vars
 =============================================================================
